@@ -13,6 +13,8 @@ structure World where
   branches : List (String × State)
   cur : String
   stash : List (List Nat × List (Nat × Nat)) := []
+  /-- claims recorded by checkpoints in the working logs of the commits a rebase / cherry-pick stopped on -/
+  stopped : List (Nat × Nat) := []
   out : List Json := []
 
 def World.get (w : World) (b : String) : State :=
@@ -56,8 +58,15 @@ def stepW (w : World) (j : Json) : Except String World := do
   | "aborted" => pure (w.rop .aborted)
   | "typed" =>
     -- lines typed while the operation is stopped at a conflict (s = 0: a person)
+    -- `rec`: the checkpoint that reported them was recorded (the file was not unmerged)
     let s ← getNatField j "s"
-    pure (w.rop (.typed (if s = 0 then none else some s) (← natsOf (← j.getObjVal? "ids"))))
+    let ids ← natsOf (← j.getObjVal? "ids")
+    let recorded := match getBoolField j "rec" with
+      | .ok b => b
+      | .error _ => false
+    let who : Author := if s = 0 then none else some s
+    let w' := w.rop (.typed who ids)
+    pure (if recorded then { w' with stopped := w'.stopped ++ stopClaims who ids } else w')
   | "switchCarry" =>
     -- the working tree goes along: the state under the new name is the carried one
     let name ← (← j.getObjVal? "name").getStr?
@@ -76,7 +85,7 @@ def stepW (w : World) (j : Json) : Except String World := do
     let news ← contentsOf (← j.getObjVal? "news")
     let keep := w.here.log.length - drop
     let mid := (zipLog onto).take (onto.log.length - keep)
-    pure (w.rop (.replay drop mid none news))
+    pure { (w.rop (.replayR w.stopped drop mid none news)) with stopped := [] }
   | "cherryPick" =>
     let src := w.get (← (← j.getObjVal? "src").getStr?)
     let news ← contentsOf (← j.getObjVal? "news")
@@ -84,7 +93,7 @@ def stepW (w : World) (j : Json) : Except String World := do
     let skip := match getNatField j "skip" with
       | .ok n => n
       | .error _ => 0
-    pure (w.rop (.replay 0 [] (some (src.log.drop skip, src.notes.drop skip)) news))
+    pure { (w.rop (.replayR w.stopped 0 [] (some (src.log.drop skip, src.notes.drop skip)) news)) with stopped := [] }
   | "squash" =>
     let src := w.get (← (← j.getObjVal? "src").getStr?)
     pure (w.rop (.squash src.log src.notes (← natsOf (← j.getObjVal? "ys"))))
